@@ -789,7 +789,7 @@ class _ActionSubCommands(_SubParsersAction):
 
             # Update all subcommand settings
             if subnamespace is not None:
-                cfg[key] = subparser.merge_config(cfg.get(key, Namespace()), subnamespace)
+                cfg[key] = subparser.merge_config(cfg.get(key) or Namespace(), subnamespace)
 
             # Handle inner subcommands
             if subparser._subparsers is not None:
